@@ -1164,6 +1164,114 @@ def check_annulus_mask(res, spec, includes=('absent', False)):
     res.outcome(('annulus_mask', spec['cls'], pads, 'ok' if allok else 'BAD'))
 
 
+# ---- SKY ANNULI ---------------------------------------------------------------------------------------------------
+# "An annulus contains exactly the positions inside its outer shape and not inside its inner shape" for the sky classes:
+# the answer of the sky annulus for sky positions against outer_sky.contains & ~inner_sky.contains, where the two simple sky
+# shapes are built from the same centre, sizes and angle (they are converted by other code than the annulus).
+SKY_ANN_UNITS = {'arcsec': ['arcsec'] * 4, 'arcmin': ['arcmin'] * 4, 'deg': ['deg'] * 4, 'mixed': ['arcmin', 'deg', 'arcsec', 'rad']}
+SKY_ANN_SIZES = [((6.0, 4.0), (14.0, 9.0)), ((5.0, 5.0), (9.0, 12.0))]       # (inner w, h), (outer w, h) in pixel equivalents
+
+
+def sky_annulus_cases():
+    out = []
+    for cls in ('circleannulus', 'ellipseannulus', 'rectangleannulus'):
+        for si, _ in enumerate(SKY_ANN_SIZES):
+            for ang in (0.0, 35.0):
+                if cls == 'circleannulus' and ang:
+                    continue
+                for un in SKY_ANN_UNITS:
+                    for inc in ('absent', False):
+                        for wk in (1, 5):
+                            out.append({'part': 'sky_annulus', 'cls': cls, 'size': si, 'angle': ang, 'units': un, 'include': inc, 'wcs': wk})
+    return out
+
+
+def check_sky_annulus(res, c):
+    import astropy.units as u
+    import regions as R
+    from regions import PixCoord
+    from mc.pool import wcs_simple
+    proj, rot = WCSS[c['wcs']]
+    scale = 1e-3
+    w = wcs_simple(rot_deg=rot, cdelt=scale, proj=proj)
+    case = dict(c)
+    cx = Ctx(res, case)
+    res.states += 1
+    res.evaluations += 1
+    res.axis('part', 'sky_annulus')
+    res.axis('sky_annulus_units', c['units'])
+    (iw, ih), (ow, oh) = SKY_ANN_SIZES[c['size']]
+    names = SKY_ANN_UNITS[c['units']]
+    q = lambda v, k: (v * scale * u.deg).to(getattr(u, names[k]))      # noqa
+    centre = w.pixel_to_world(61.25, 48.5)
+    meta = {} if c['include'] == 'absent' else {'include': c['include']}
+    ang = c['angle'] * u.deg
+    try:
+        if c['cls'] == 'circleannulus':
+            ann = R.CircleAnnulusSkyRegion(centre, q(iw / 2, 0), q(ow / 2, 1), meta=meta)
+            inner, outer = R.CircleSkyRegion(centre, q(iw / 2, 0)), R.CircleSkyRegion(centre, q(ow / 2, 1))
+        else:
+            K1 = R.EllipseAnnulusSkyRegion if c['cls'] == 'ellipseannulus' else R.RectangleAnnulusSkyRegion
+            K2 = R.EllipseSkyRegion if c['cls'] == 'ellipseannulus' else R.RectangleSkyRegion
+            ann = K1(centre, q(iw, 0), q(ow, 1), q(ih, 2), q(oh, 3), angle=ang, meta=meta)
+            inner, outer = K2(centre, q(iw, 0), q(ih, 2), angle=ang), K2(centre, q(ow, 1), q(oh, 3), angle=ang)
+    except Exception as exc:          # noqa: BLE001
+        cx.bad('build_failed', f'could not construct the sky annulus: {type(exc).__name__}: {exc}')
+        return
+    n = 41
+    gx = 61.25 + (np.arange(n) - (n - 1) / 2.0) * (1.3 * ow / n) + 0.013
+    gy = 48.5 + (np.arange(n) - (n - 1) / 2.0) * (1.3 * max(oh, ow) / n) - 0.007
+    GX, GY = np.meshgrid(gx, gy)
+    sc = w.pixel_to_world(GX.ravel(), GY.ravel())
+    ok, got = _call(cx, 'sky annulus contains', lambda: ann.contains(sc, w))
+    ok2, parts_ = _call(cx, 'simple sky shapes contains', lambda: (np.asarray(inner.contains(sc, w), bool), np.asarray(outer.contains(sc, w), bool)))
+    res.transitions += 2
+    if not (ok and ok2):
+        return
+    ii, io = parts_
+    # robust positions: not within 1e-6 of a boundary of the converted simple shapes (their own conversion is C06/C07's matter)
+    try:
+        pi_, po_ = inner.to_pixel(w), outer.to_pixel(w)
+        def spec_of(p):
+            if c['cls'] == 'circleannulus':
+                return {'cls': 'circle', 'center': [float(p.center.x), float(p.center.y)], 'radius': float(p.radius)}
+            return {'cls': 'ellipse' if c['cls'] == 'ellipseannulus' else 'rectangle', 'center': [float(p.center.x), float(p.center.y)],
+                    'width': float(p.width), 'height': float(p.height), 'angle': [float(p.angle.to_value(u.deg)), 'deg', 'quantity']}
+        pc = PixCoord.from_sky(sc, w)
+        px, py = np.asarray(pc.x, float), np.asarray(pc.y, float)
+        sure = np.ones(px.shape, bool)
+        for p in (pi_, po_):
+            sp = spec_of(p)
+            base, _ = G.Ref(sp).member(px, py)
+            for k in range(8):
+                a = 2.0 * math.pi * k / 8.0
+                i2, s2 = G.Ref(sp).member(px + 1e-3 * math.cos(a), py + 1e-3 * math.sin(a))
+                sure &= np.asarray(s2, bool) & (np.asarray(i2, bool) == np.asarray(base, bool))
+    except Exception as exc:          # noqa: BLE001
+        cx.bad('unexpected_exception', f'converting the simple sky shapes raised {type(exc).__name__}: {exc}')
+        return
+    ring = io & ~ii
+    want = ring if c['include'] == 'absent' else ~ring
+    got = np.asarray(got, bool)
+    if got.shape != want.shape:
+        cx.bad('annulus_membership', f'sky annulus answer has shape {got.shape}, query shape {want.shape}')
+        return
+    bad = (got != want) & sure
+    if (ring & sure).any() and (ii & sure).any() and (~io & sure).any():
+        res.nontriv(('sky_annulus', json_key(c)))
+    res.outcome(('sky_annulus', c['cls'], c['units'], 'ok' if not bad.any() else 'BAD'))
+    if bad.any():
+        k = int(np.flatnonzero(bad)[0])
+        cx.bad('annulus_membership', f'sky {c["cls"]} (sizes in {names}) answers {int(bad.sum())} of {int(sure.sum())} robust sky positions differently '
+                                     f'from (inside the outer sky shape) and not (inside the inner sky shape); first: pixel ({GX.ravel()[k]!r}, {GY.ravel()[k]!r}), '
+                                     f'annulus {bool(got[k])}, expected {bool(want[k])}', bool(want[k]), bool(got[k]))
+
+
+def json_key(c):
+    import json
+    return json.dumps(c, sort_keys=True)
+
+
 # ---- framework ------------------------------------------------------------------------------------------------
 def shards(tier, seed):
     out = []
@@ -1190,8 +1298,9 @@ def shards(tier, seed):
     nm = 8 if tier == 'quick' else 32
     for k in range(nm):
         out.append({'part': 'annulus_mask', 'k': k, 'n': nm})
+    out.append({'part': 'sky_annulus'})
     # heavy shards first
-    order = {'pair': 0, 'tree3': 1, 'tree2': 2, 'annulus': 3, 'annulus_mask': 4}
+    order = {'pair': 0, 'tree3': 1, 'tree2': 2, 'annulus': 3, 'annulus_mask': 4, 'sky_annulus': 5}
     out.sort(key=lambda s: order[s['part']])
     return out
 
@@ -1222,6 +1331,9 @@ def run_shard(shard, tier, seed):
         for t in _TREES[part][shard['lo']:shard['hi']]:
             check_tree(res, t, flags, extras=extras, masks=(shard['pattern'] == 0))
         res.axis('tree_venn_cells_populated', tree_cells_present())
+    elif part == 'sky_annulus':
+        for c in sky_annulus_cases():
+            check_sky_annulus(res, c)
     elif part == 'annulus_mask':
         for spec in annulus_mask_specs(tier)[shard['k']::shard['n']]:
             check_annulus_mask(res, spec)
@@ -1240,6 +1352,8 @@ def replay(case):
         check_pair_config(res, case['expr'], wcss, rots, only=only)
     elif case['part'] == 'tree':
         check_tree(res, case['tree'], case['flags'], extras=case.get('extras', False), only=only)
+    elif case['part'] == 'sky_annulus':
+        check_sky_annulus(res, {k: case[k] for k in ('part', 'cls', 'size', 'angle', 'units', 'include', 'wcs')})
     elif case['part'] == 'annulus_mask':
         s = dict(case['spec'])
         inc = s.pop('include', 'absent')
